@@ -103,7 +103,7 @@ class contentsSet(GenericEquality):
         if fs.isfs_obj(obj):
             self._dict.pop(obj.location, None)
         else:
-            self._dict.pop(obj, None)
+            self._dict.pop(normpath(obj), None)
 
     def __getitem__(self, obj):
         if fs.isfs_obj(obj):
@@ -132,7 +132,14 @@ class contentsSet(GenericEquality):
             if f(x):
                 yield x.location
             else:
-                yield x
+                yield normpath(x)
+
+    def _locations(self, other):
+        """Collapse a contentsSet, or an iterable of fs objs and/or paths, into
+        a container of normalized locations."""
+        if isinstance(other, contentsSet):
+            return other._dict
+        return set(self._convert_loc(other))
 
     @staticmethod
     def _ensure_fsbase(iterable):
@@ -143,8 +150,7 @@ class contentsSet(GenericEquality):
             yield x
 
     def difference(self, other):
-        if not hasattr(other, "__contains__"):
-            other = set(self._convert_loc(other))
+        other = self._locations(other)
         return contentsSet(
             (x for x in self if x.location not in other), mutable=self.mutable
         )
@@ -164,26 +170,21 @@ class contentsSet(GenericEquality):
     def intersection_update(self, other):
         if not self.mutable:
             raise TypeError(f"immutable type {self!r}")
-        if not hasattr(other, "__contains__"):
-            other = set(self._convert_loc(other))
+        other = self._locations(other)
 
         l = [x for x in self if x.location not in other]
         for x in l:
             self.remove(x)
 
     def issubset(self, other):
-        if not hasattr(other, "__contains__"):
-            other = set(self._convert_loc(other))
+        other = self._locations(other)
         return all(x in other for x in self._dict)
 
     def issuperset(self, other):
-        if not hasattr(other, "__contains__"):
-            other = set(self._convert_loc(other))
         return all(x in self for x in other)
 
     def isdisjoint(self, other):
-        if not hasattr(other, "__contains__"):
-            other = set(self._convert_loc(other))
+        other = self._locations(other)
         return not any(x in other for x in self._dict)
 
     def union(self, other):
@@ -207,7 +208,7 @@ class contentsSet(GenericEquality):
     def symmetric_difference_update(self, other):
         if not self.mutable:
             raise TypeError(f"immutable type {self!r}")
-        if not hasattr(other, "__contains__"):
+        if not isinstance(other, contentsSet):
             other = contentsSet(self._ensure_fsbase(other))
         l = []
         for x in self:
